@@ -745,3 +745,19 @@ def with_profile(inner, profile, quick, thorough, note):
 REGISTRY["C12"]["run"] = with_profile(REGISTRY["C12"]["run"], "rerun", 100, 4000,
                                       "the same stream on USED objects only (every case observed after an earlier forward run or a backward run with "
                                       "due times of the tail tasks, i.e. after helper tasks were added and removed)")
+
+
+def with_api(inner, fn_name, quick, thorough):
+    """append one of the API-corner streams of harness/apistream.py (real code only)"""
+    def run(ctx):
+        inner(ctx)
+        import apistream
+        getattr(apistream, fn_name)(ctx, ctx.n(quick, thorough))
+    return run
+
+
+REGISTRY["C08"]["run"] = with_api(REGISTRY["C08"]["run"], "run_readonly_queries", 60, 2000)
+REGISTRY["C07"]["run"] = with_api(REGISTRY["C07"]["run"], "run_add_labor_cost_flags", 60, 2000)
+REGISTRY["C18"]["run"] = with_api(REGISTRY["C18"]["run"], "run_class_level_edits", 80, 3000)
+REGISTRY["C13"]["run"] = with_api(REGISTRY["C13"]["run"], "run_placement_logs_after_insert", 80, 3000)
+REGISTRY["C16"]["run"] = with_api(REGISTRY["C16"]["run"], "run_nonfinite_json", 40, 1000)
